@@ -3,7 +3,7 @@ K = 'github.com/ProjectSerenity/firefly/kernel'
 
 PROP = {
     'pkg': K + '/device/acpi/aml',
-    'tests': [{'name': 'TestVerifC13', 'checks_quick': 20000, 'checks_thorough': 600000, 'shrinktime': '60s'}],
+    'tests': [{'name': 'TestVerifC13', 'checks_quick': 12000, 'checks_thorough': 600000, 'shrinktime': '60s'}],
     'fuzz': [{'name': 'FuzzVerifC13Find', 'seconds': 60}],
     'rule': 'rapid generates histories (<=200 ops, positional encoding "k-th live attached node mod n") of '
             'newNamedObject / newObject (named by the caller the way the parser names field elements, or left unnamed) / '
